@@ -1982,6 +1982,97 @@ async fn a_field_mask_hides_a_value_from_the_pattern_as_well_as_the_filter() {
 }
 
 #[tokio::test]
+async fn a_field_mask_hides_a_value_from_the_result_cap_as_well() {
+    // §109 once more, for what loading a candidate leaves behind. A reader
+    // holds Concepts in full and uncapped, and Assertions masked to
+    // `confidence` with `max_results: 1`. Two Spaces differ only in the `mode`
+    // of one Assertion. The index used to propose that Assertion for `{mode:
+    // "stated"}`, loading it folded its Grant's cap into the read, and the
+    // mask re-check then dropped it — so one Space answered every Person and
+    // the other one Person plus a cursor.
+    let mut answers = Vec::new();
+    for (name, second_mode) in [("result_cap_a", "observed"), ("result_cap_b", "stated")] {
+        let nexus = stocked(name).await;
+        let owner = nexus.system_session();
+        let created = run_as(
+            &owner,
+            &format!(
+                r#"MUTATE {{
+                    CREATE CONCEPT ?alice {{ TYPE "Person" NAME "Alice" }}
+                    CREATE CONCEPT ?bob {{ TYPE "Person" NAME "Bob" }}
+                    ENSURE PROPOSITION ?p (?alice, "prefers", ?bob)
+                    CREATE ASSERTION ?one {{
+                        SET FIELDS {{proposition: ?p, asserted_by: ?alice,
+                                    stance: "support", mode: "observed", confidence: 0.9}}
+                    }}
+                    CREATE ASSERTION ?two {{
+                        SET FIELDS {{proposition: ?p, asserted_by: ?bob,
+                                    stance: "support", mode: "{second_mode}", confidence: 0.4}}
+                    }}
+                }}"#
+            ),
+        )
+        .await;
+        assert_eq!(created.status, TopLevelStatus::Succeeded);
+        let gov = nexus.governance();
+        let reader = agent(gov, "kip:principal:capped-masked-reader").await;
+        gov.create_grant(
+            GrantDraft {
+                space_id: DEFAULT_SPACE.into(),
+                grantee_principal: reader.clone(),
+                actions: vec!["read".into()],
+                scope: AuthorityScope {
+                    kinds: vec!["concept".into()],
+                    ..Default::default()
+                },
+                ..Default::default()
+            },
+            SYSTEM_PRINCIPAL,
+        )
+        .await
+        .unwrap();
+        gov.create_grant(
+            GrantDraft {
+                space_id: DEFAULT_SPACE.into(),
+                grantee_principal: reader.clone(),
+                actions: vec!["read".into()],
+                scope: AuthorityScope {
+                    kinds: vec!["assertion".into()],
+                    ..Default::default()
+                },
+                constraints: AuthorityConstraints {
+                    fields: vec!["confidence".into()],
+                    max_results: Some(1),
+                    ..Default::default()
+                },
+                ..Default::default()
+            },
+            SYSTEM_PRINCIPAL,
+        )
+        .await
+        .unwrap();
+        let session = nexus.session(AuthContext::principal(&reader));
+        let mut space_answers = Vec::new();
+        for query in [
+            r#"FIND(?c.id) WHERE { ?c CONCEPT {type: "Person"} NOT { ?a ASSERTION {asserted_by: ?c, mode: "stated"} } }"#,
+            r#"FIND(?x.id) WHERE { ?x CONCEPT {type: "Person"} UNION { ?x ASSERTION {mode: "stated"} } }"#,
+        ] {
+            let response = run_as(&session, query).await;
+            assert_eq!(response.status, TopLevelStatus::Succeeded, "{query}");
+            space_answers.push((
+                response.first_result().cloned(),
+                response.next_cursor.clone(),
+            ));
+        }
+        answers.push(space_answers);
+    }
+    assert_eq!(
+        answers[0], answers[1],
+        "the reader may not see `mode`, yet the rows and cursor it gets tell the Spaces apart"
+    );
+}
+
+#[tokio::test]
 async fn a_read_grants_max_results_caps_the_response() {
     let nexus = stocked("max_results").await;
     let owner = nexus.system_session();
